@@ -18,7 +18,15 @@
   4. *correspondence* `dispatch-root`: for the catalogue of C17 plus parameterised collections of its members,
      `type(unmarshaller(T)).__name__` / `type(marshaller(T)).__name__` on /repo vs `dispatch_root` in Coq;
      `dispatch-node`: `_get_unmarshaller(TypeNode(T, unwrap(T)), ctx)` / the marshal twin called directly with a
-     context that answers every lookup (so forward references and members are dispatched as nodes) vs `dispatch`.
+     context that answers every lookup (so forward references and members are dispatched as nodes) vs `dispatch`;
+     `dispatch-root-spec` / `dispatch-node-spec`: the CONCLUSION of the theorems against the same observations: for
+     every case inside the supported grammar (`supported`, decided in Coq) the observed classes are
+     expected_u / expected_m of the head kind; a mismatch is a failing input (`search(run)`, `replay(payload)`).
+  5. *two descriptions* `dispatch-core-heads` (`core_heads`): for generated universe modules (the caller's own
+     coremodel groups when given) every annotation is described as the Core `ty` of the core harness and as the `ity`
+     of the catalogue; the class lattice is re-reflected with the generated classes, the finite check is re-decided
+     for it (DispatchX_ok), `construct_matches_dispatch` is instantiated (DispatchX_construct) and Coq decides its
+     hypothesis `heads_agree` per annotation: the case Build.construct takes is the class the code's dispatch picks.
 
 Called from the property modules (C05, C15, C01, C17); everything is recorded on the given `run`.
 """
@@ -28,6 +36,7 @@ import ast
 import os
 import re
 import sys
+import warnings
 
 import impl
 import lib
@@ -38,14 +47,15 @@ if os.path.join(_HERE, "props") not in sys.path:
     sys.path.insert(0, os.path.join(_HERE, "props"))
 
 COQ_TARGETS = ["theories/Model/Inspect.vo", "theories/Model/InspectSpec.vo", "theories/Proofs/InspectLemmas.vo",
+               "theories/Model/Core.vo", "theories/Model/Build.vo",
                "theories/Model/Dispatch.vo", "theories/Model/DispatchEq.vo", "theories/Proofs/DispatchLemmas.vo"]
 
 THEOREMS = [
     "Dispatch_tables_ok", "Dispatch_handlers_ok",
-    "Dispatch_unmarshal", "Dispatch_marshal", "Dispatch_pairs", "Dispatch_everywhere",
-    "Dispatch_wrapped",
+    "Dispatch_unmarshal", "Dispatch_marshal", "Dispatch_pairs", "Dispatch_universe", "Dispatch_grammar",
+    "Dispatch_wrap_tables_ok", "Dispatch_wrapped", "Dispatch_everywhere", "Dispatch_construct",
     "Dispatch_refuted_date_before_datetime", "Dispatch_refuted_mapping_after_iterable",
-    "Dispatch_refuted_unsupported_pair",
+    "Dispatch_refuted_enum_after_scalars", "Dispatch_refuted_unsupported_pair", "Dispatch_refuted_guards",
 ]
 
 SIDES = {
@@ -339,7 +349,9 @@ def _raises_in_predicate(table, obj):
 def _obs(f, table, obj):
     impl.clear_caches()
     try:
-        r = f(obj)
+        with warnings.catch_warnings():
+            warnings.simplefilter("ignore")
+            r = f(obj)
     except RecursionError:
         return "OSkip", "RecursionError"
     except Exception as e:  # noqa: BLE001 - every exception is an observation
@@ -422,17 +434,22 @@ def evaluate(run, rows, layer, root):
         part = live[s:s + 400]
         name = f"cases_{layer.replace('-', '_')}_{s // 400}.v"
         body = ";\n  ".join(f"({rows[i]['term']}, {rows[i]['ou']}, {rows[i]['om']})" for i in part)
+        b = 'true' if root else 'false'
         files[name] = (HDR + f"Definition cases : list dcase :=\n  [ {body} ].\n"
-                       f"Eval vm_compute in mismatches D {'true' if root else 'false'} cases.\n")
+                       f"Eval vm_compute in spec_report D {b} cases.\n"
+                       f"Eval vm_compute in mismatches D {b} cases.\n")
         index[name] = part
-    bad = []
+    bad, spec_bad, covered = [], [], 0
     res = run.coq_eval_many(files, timeout=900)
     for name, out in res.items():
-        if out is None:
+        if out is None or len(out) != 2:
             run.oblige(f"evaluate:{name}", False, "model evaluation did not compile")
             bad += [(i, -1) for i in index[name]]
             continue
-        for a, b in re.findall(r"\((\d+),\s*(\d+)\)", out[-1]):
+        m = re.match(r"\((\d+)(?:%nat)?,\s*(.*)\)$", out[0].strip())
+        covered += int(m.group(1))
+        spec_bad += [index[name][k] for k in lib.parse_nat_list(m.group(2))]
+        for a, b in re.findall(r"\((\d+),\s*(\d+)\)", out[1]):
             bad.append((index[name][int(a)], int(b)))
     bad = sorted(set(bad))
     mism = []
@@ -460,14 +477,205 @@ def evaluate(run, rows, layer, root):
     classes = sorted({s for r in rows if not r["error"] for s in r["shown"] if not s.startswith("raise")})
     dist["routine_classes_seen"] = len(classes)
     run.record_corr(layer, 2 * len(live), mism, 2 * len(live), dist)
+    # the theorems' conclusion against the observation: inside `supported` the observed classes are expected_u/m(kind)
+    expected = {}
+    if spec_bad:
+        first = spec_bad[:8]
+        b = 'true' if root else 'false'
+        out = run.coq_eval(f"spec_{layer.replace('-', '_')}.v",
+                           HDR + "".join(f"Eval vm_compute in spec_says D {b} {rows[i]['term']}.\n" for i in first))
+        for i, o in zip(first, out or []):
+            expected[i] = re.findall(r'"([^"]*)"', o)
+    smism = [{"kind": "dispatch", "root": root, "desc": rows[i]["desc"], "observed": rows[i]["shown"],
+              "expected": expected.get(i),
+              "why": "inside the supported grammar, but the observed classes are not those of the head kind"}
+             for i in spec_bad]
+    fails = getattr(run, "_dispatch_failures", [])
+    fails += [dict(m, key="dispatch:" + repr(m["desc"])) for m in smism if m["expected"]]
+    run._dispatch_failures = fails
+    run.record_corr(layer + "-spec", covered, smism, covered,
+                    {"cases_inside_supported_grammar": covered, "of": len(live)})
     return mism
+
+
+def search(run):
+    """failing inputs of this run (annotations inside the supported grammar whose observed routine classes are not
+    those of the head kind), as failure dicts for the property's oracle step; each replays with `replay`"""
+    seen, out = set(), []
+    for f in getattr(run, "_dispatch_failures", []):
+        if f["key"] not in seen:
+            seen.add(f["key"])
+            out.append(f)
+    return out[:5]
+
+
+def replay(payload):
+    """payload: a failure of `search` -> does the implementation still choose other classes than expected?"""
+    import c17
+    cat = c17.get_cat()
+    d = c17._tuplify(payload["desc"])
+    r = observe(cat, [d], bool(payload.get("root", True)))[0]
+    if r.get("error"):
+        return {"fails": False, "error": r["error"]}
+    return {"fails": list(r["shown"]) != list(payload["expected"]), "observed": r["shown"],
+            "expected": payload["expected"]}
+
+
+def diagnose(run):
+    """the theorem file does not check: name the representatives on which a table no longer gives the class of the
+    head kind (these are annotations: usable as failing inputs)"""
+    txt = (HDR + "Eval vm_compute in (atoms_ok tbl, wrap_tables_ok tbl).\n"
+           "Eval vm_compute in firstn 6 (map (fun u => (u, kind_of tbl u, gm_u D u, gm_m D u)) "
+           "(filter (fun u => negb (rep_ok D u)) (reps tbl))).\n")
+    out = run.coq_eval("diagnose_dispatch.v", txt)
+    if out:
+        run.notes.append("dispatch bridge: table conditions (atoms_ok, wrap_tables_ok) = " + out[0])
+        run.notes.append("dispatch bridge: representatives whose dispatch is not the class of their head kind "
+                         "(annotation, kind, unmarshal side, marshal side): " + out[1][:1500])
+        run.log("DISPATCH: failing representatives: " + out[1][:600])
+    run.extra_cov["dispatch_failing_reps"] = out[1][:3000] if out else None
+
+
+# ----------------------------------------------------------------------------------
+# 5. one annotation, two descriptions: the core harness' ty and the catalogue's ity
+# ----------------------------------------------------------------------------------
+
+AGREE = {0: "agree", 1: "outside the supported grammar", 2: "the ty has no constructor case", 3: "different heads"}
+
+
+def core_heads(run: lib.Run, groups=None, tag="", n_groups=None):
+    """For generated universe modules (coreprop.generate: the modules C01/C05/C15 work on) every annotation is
+    described twice -- as the Core `ty` the core harness prints (universe.Registry.emit_ty) and as the `ity` the C17
+    catalogue derives from the Python object -- and Coq decides `heads_agree`: the case Build.construct takes for the
+    ty is the one the dispatch theorems give the ity (hypothesis of DispatchLemmas.construct_matches_dispatch).
+    The class lattice is re-reflected with the classes of the generated modules (GenInspectTablesX.v) and the
+    finite check of the dispatch theorems is re-decided for that lattice."""
+    import copy
+    import c17
+    import coreprop
+    from universe import EXOTIC
+    base = c17.get_cat()
+    cat = copy.copy(base)
+    for a in ("classes", "cid", "cls_by_obj", "has_instance", "_memo"):
+        setattr(cat, a, dict(getattr(base, a)))
+    cat.problems = list(base.problems)
+    own = groups is None
+    if own:
+        n = n_groups or run.budget(6, 30)
+        groups, _ = coreprop.generate(run, n, seed_offset=4242, values_per_root=0, with_pool=False)
+    sfx = ("_" + re.sub(r"\W", "_", tag)) if tag else ""
+    items = []          # (group index, desc, ty term, ity term | None, why)
+    try:
+        for gi, g in enumerate(groups):
+            for v in vars(g.mod).values():
+                if isinstance(v, type) and v.__module__ == g.mod.__name__:
+                    cat.ensure_class(v)
+            for py, d in g.reg.rev:
+                try:
+                    tau = g.reg.emit_ty(d)
+                except Exception as e:  # noqa: BLE001
+                    items.append((gi, d, None, None, f"no ty: {e!r}"[:80]))
+                    continue
+                try:
+                    for c in _classes_in(py):
+                        cat.ensure_class(c)
+                    it = cat.emit(cat.describe(py))
+                    why = None
+                except Exception as e:  # noqa: BLE001
+                    it, why = None, f"no ity: {e!r}"[:80]
+                items.append((gi, d, tau, it, why))
+        ttext, tproblems = c17.reflect_tables(cat)
+        ttext = ttext.replace("Definition k_", "Definition kx_")     # generated class names may collide
+        ok = run.compile_dyn(f"GenInspectTablesX{sfx}.v", text=ttext)
+        tx = f"GenInspectTablesX{sfx}"
+        hdr = (HDR.replace("TLRun.GenInspectTables ", f"TLRun.{tx} ").replace("Definition D : dtables", "Definition D0 : dtables")
+               .replace("Build_dtables tbl ", f"Build_dtables {tx}.tbl ")
+               + f"Definition DX : dtables := Build_dtables {tx}.tbl unm_handlers unm_fallback "
+                 "mar_handlers mar_fallback rc_impl.\nRequire TL.Model.Core TL.Model.Build TL.Proofs.DispatchLemmas.\n")
+        thm = hdr + ("Theorem DispatchX_ok : atoms_ok @TX@.tbl = true /\\ all_reps_ok DX = true "
+                     "/\\ wrap_tables_ok @TX@.tbl = true.\n"
+                     "Proof. vm_compute. repeat split. Qed.\n"
+                     "Theorem DispatchX_construct : forall E t tau dir cx r, heads_agree DX E t tau = 0 ->\n"
+                     "  Build.construct E dir cx (Build.unwrap tau) = Core.Ok r ->\n"
+                     "  exists k, kind_of @TX@.tbl (peel t) = Some k /\\ routine_bhead r = build_head k\n"
+                     "    /\\ disp_u DX t = DOk (expected_u k) /\\ disp_m DX t = DOk (expected_m k).\n"
+                     "Proof. exact (TL.Proofs.DispatchLemmas.construct_matches_dispatch DX (proj1 DispatchX_ok) "
+                     "(proj1 (proj2 DispatchX_ok)) (proj2 (proj2 DispatchX_ok))). Qed.\n"
+                     "Print Assumptions DispatchX_ok.\nPrint Assumptions DispatchX_construct.\n").replace("@TX@", tx)
+        ok = ok and run.compile_dyn(f"DispatchX{sfx}.v", text=thm, theorems=["DispatchX_ok", "DispatchX_construct"], timeout=600)
+        body = ("From Coq Require Import List NArith ZArith String.\nImport ListNotations.\n"
+                f"Require Import TL.Model.Inspect TL.Model.Dispatch TL.Model.DispatchEq TLRun.DispatchX{sfx}.\n"
+                "Require Import TL.Model.Core.\nLocal Open Scope string_scope.\n")
+        index = []
+        for gi, g in enumerate(groups):
+            mine = [x for x in items if x[0] == gi and x[3] is not None]
+            if not mine:
+                continue
+            cases = ";\n   ".join(f"({x[3]}, {x[2]})" for x in mine)
+            body += (f"Definition E{gi} : Core.env := {g.reg.emit_env()}.\n"
+                     f"Eval vm_compute in head_report DX E{gi} [ {cases} ].\n")
+            index.append(mine)
+        out = run.coq_eval(f"cases_dispatch_core_heads{sfx}.v", body, timeout=900) if ok else None
+    finally:
+        if own:
+            coreprop.close(groups)
+    if out is None or len(out) != len(index):
+        run.oblige("evaluate:cases_dispatch_core_heads.v", False, "; ".join(run.notes[-1:])[:300])
+        return
+    dist, mism, total = {"outside": {}}, [], 0
+    for mine, o in zip(index, out):
+        codes = lib.parse_nat_list(o)
+        for x, c in zip(mine, codes):
+            total += 1
+            d = x[1]
+            if c == 0:
+                dist[d[0]] = dist.get(d[0], 0) + 1
+                continue
+            exotic_leaf = d[0] == "leaf" and d[1] in EXOTIC
+            if c == 1 or (c == 3 and exotic_leaf):
+                why = AGREE[c] + (" (exotic leaf of the extended grammar: a leaf of the core model)" if exotic_leaf else "")
+                dist["outside"][why] = dist["outside"].get(why, 0) + 1
+                continue
+            mism.append({"desc": d, "ty": x[2], "ity": x[3], "why": AGREE.get(c, str(c))})
+    for x in items:
+        if x[3] is None:
+            dist["outside"][x[4]] = dist["outside"].get(x[4], 0) + 1
+    agreeing = total - len(mism) - sum(v for k, v in dist["outside"].items() if not k.startswith("no "))
+    run.record_corr("dispatch-core-heads" + (":" + tag if tag else ""), total, mism, agreeing, dist)
+
+
+def _classes_in(py, depth=0):
+    """classes mentioned by an annotation object (so that they can be given ids before it is described)"""
+    import typing as tp
+    out = []
+    if depth > 8:
+        return out
+    if isinstance(py, type):
+        out.append(py)
+    for a in getattr(py, "__args__", ()) or ():
+        if isinstance(a, (list, tuple)):
+            for b in a:
+                out += _classes_in(b, depth + 1)
+        else:
+            out += _classes_in(a, depth + 1)
+    og = tp.get_origin(py)
+    if isinstance(og, type):
+        out.append(og)
+    for attr in ("__supertype__", "__value__", "__bound__"):
+        v = getattr(py, attr, None)
+        if v is not None and not isinstance(v, str):
+            out += _classes_in(v, depth + 1)
+    return [c for c in out if isinstance(c, type)]
 
 
 # ----------------------------------------------------------------------------------
 # entry point
 # ----------------------------------------------------------------------------------
 
-def obligations(run: lib.Run, streams: bool = True):
+def obligations(run: lib.Run, streams: bool = True, core: bool = True, groups=None, tag: str = ""):
+    """translate + reflect + theorems (always); `streams`: the dispatch-root / dispatch-node correspondence over the
+    catalogue; `core`: the two-descriptions tie `core_heads` -- on the caller's own coremodel groups when `groups` is
+    given (C01 / C05 / C15 pass the modules their three-way correspondence ran on), else on freshly generated ones."""
     import c17
     cat = c17.get_cat()
     text, problems, summary = translate()
@@ -481,8 +689,9 @@ def obligations(run: lib.Run, streams: bool = True):
         ok = run.compile_dyn("GenInspectTables.v", text=ttext)
     ok = run.compile_dyn("GenHandlers.v", text=text) and ok
     if ok:
-        run.compile_dyn("Dispatch.v", src=os.path.join(lib.DYN, "Dispatch", "Dispatch.v"), theorems=THEOREMS,
-                        timeout=600)
+        if not run.compile_dyn("Dispatch.v", src=os.path.join(lib.DYN, "Dispatch", "Dispatch.v"), theorems=THEOREMS,
+                               timeout=600):
+            diagnose(run)
     else:
         for t in THEOREMS:
             run.oblige(f"theorem:{t}", False, "generated tables do not compile")
@@ -490,6 +699,8 @@ def obligations(run: lib.Run, streams: bool = True):
         descs = catalogue(cat, run)
         evaluate(run, observe(cat, descs, True), "dispatch-root", True)
         evaluate(run, observe(cat, descs, False), "dispatch-node", False)
+    if core and ok:
+        core_heads(run, groups=groups, tag=tag)
     run.assumptions += [
         "dispatch bridge: the first-match loop of _get_unmarshaller/_get_marshaller is modelled by Dispatch.first_match; "
         "its shape (cyclic -> Delayed, context short-cut, loop over _HANDLERS.items() on node.unwrapped, fallback) is "
